@@ -232,12 +232,22 @@ func (w *worker) prepare(c *caseCtx, useRaw bool, skipRemote bool) func(tok stri
 	case "op-jwt-assertion":
 		world := w.profileWorld()
 		installClientKeys(world, c.who, c.S)
+		if c.subMode == "other-client" {
+			installClientKeys(world, c.sub, c.otherS)
+		}
 		ctx := opCtx()
 		return func(tok string) outcome {
 			var o outcome
 			o.typed = true
 			o.pi = mon.Catch(func() {
-				req, err := op.VerifyJWTAssertion(ctx, tok, world.Provider.JWTProfileVerifier(ctx))
+				v := world.Provider.JWTProfileVerifier(ctx)
+				if c.permissive {
+					// the documented way to allow delegation: same storage, issuer and windows as the provider's
+					// own verifier, custom subject check
+					v = op.NewJWTProfileVerifier(world.Storage, issuer, time.Hour, time.Second,
+						op.SubjectCheck(func(*oidc.JWTTokenRequest) error { return nil }))
+				}
+				req, err := op.VerifyJWTAssertion(ctx, tok, v)
 				o.err = err
 				if err == nil && req != nil {
 					o.accepted, o.m = true, marshalToMap(req)
